@@ -443,7 +443,7 @@ func (c *ctx) evaluate(k kase, ref *reference, peeks []*inspectRec, preCommits [
 		for i := 0; i+1 < len(extra); i += 2 {
 			sig[extra[i]] = extra[i+1]
 		}
-		if len(peeks) > 0 {
+		if len(peeks) > 0 && kind != "receipts-hash-depends-on-process-lifetime" { // one defect = one class
 			sig["persisted"] = shape(peeks[len(peeks)-1])
 		}
 		vs = append(vs, &violation{Sig: sig, Detail: fmt.Sprintf("%s: %s", k, detail)})
